@@ -232,4 +232,6 @@ pub use evaluator::Evaluator;
 pub use util::he_standard_params;
 pub use serialize::{Serializable, SerializableWithHeContext, PolynomialSerializer};
 pub use shortcut::*;
+#[cfg(feature = "verif-hooks")]
+pub mod verif;
 pub mod perf_utils;
